@@ -443,7 +443,7 @@ CONTRACTS += [
     Contract(
         id='T.force.memo', target='taskchain.task:Task.force', props={'C07': 'decisive'},
         inputs={'self': insp_task(data=Abs(DataIfaceD, 'data')), 'delete_data': S(Bool, 'delete_data')}, requires=['has_base_dir'],
-        callees=DATA_CALLEES, ensures={'post': 'force_post'},
+        callees=DATA_CALLEES, ensures={'post': 'force_post'}, may_raise=['Opaque', 'ValueError'],
     ),
 ]
 for _name in ['has_data', 'data_path', 'run_info', 'log', '_data_without_value']:
